@@ -107,6 +107,109 @@ func checkLexerSwitch(p *Program, r *Result, g *goLayouts) {
 		}
 		return true
 	})
+	// other dispatch forms: `if opcode == OpX { ... }` and a lookup in a package-level map[OpCode]TokenType literal
+	// whose hit returns the token and whose miss falls through to the next iteration
+	armOf := func(n ast.Node) arm {
+		a := arm{}
+		ast.Inspect(n, func(m ast.Node) bool {
+			switch x := m.(type) {
+			case *ast.ReturnStmt:
+				a.returns = true
+				if len(x.Results) == 3 {
+					if id, ok := x.Results[2].(*ast.Ident); !ok || id.Name != "nil" {
+						a.errRet = true
+					}
+				}
+			case *ast.BranchStmt:
+				if x.Tok == token.CONTINUE {
+					a.cont = true
+				}
+			}
+			return true
+		})
+		return a
+	}
+	isOpcodeExpr := func(e ast.Expr) bool {
+		nt, ok := g.info.TypeOf(e).(*types.Named)
+		return ok && nt.Obj().Name() == "OpCode"
+	}
+	var walkStmts func(list []ast.Stmt)
+	walkStmts = func(list []ast.Stmt) {
+		for i, st := range list {
+			switch x := st.(type) {
+			case *ast.ForStmt:
+				walkStmts(x.Body.List)
+			case *ast.BlockStmt:
+				walkStmts(x.List)
+			case *ast.IfStmt:
+				// if opcode == OpX { ... }
+				if be, ok := x.Cond.(*ast.BinaryExpr); ok && be.Op == token.EQL && x.Init == nil && isOpcodeExpr(be.X) {
+					if tv, ok := g.info.Types[be.Y]; ok && tv.Value != nil {
+						a := armOf(x.Body)
+						cc := &ast.CaseClause{Case: x.Pos()}
+						a.cc = cc
+						name := types.ExprString(be.Y)
+						if prev, had := arms[name]; !had || (a.returns && !prev.returns) {
+							arms[name] = a
+						}
+					}
+					continue
+				}
+				// if tok, ok := table[opcode]; ok { return tok, record, nil }
+				as, ok := x.Init.(*ast.AssignStmt)
+				if !ok || len(as.Lhs) != 2 || len(as.Rhs) != 1 {
+					continue
+				}
+				ix, ok := as.Rhs[0].(*ast.IndexExpr)
+				if !ok || !isOpcodeExpr(ix.Index) {
+					continue
+				}
+				okId, _ := as.Lhs[1].(*ast.Ident)
+				cid, _ := x.Cond.(*ast.Ident)
+				if okId == nil || cid == nil || okId.Name != cid.Name {
+					continue
+				}
+				tid, _ := ix.X.(*ast.Ident)
+				if tid == nil {
+					continue
+				}
+				lit := packageMapLiteral(g, tid)
+				if lit == nil {
+					continue
+				}
+				hit := armOf(x.Body)
+				for _, el := range lit.Elts {
+					kv, ok := el.(*ast.KeyValueExpr)
+					if !ok {
+						continue
+					}
+					a := hit
+					a.cc = &ast.CaseClause{Case: kv.Pos()}
+					name := types.ExprString(kv.Key)
+					if prev, had := arms[name]; !had || (a.returns && !prev.returns) {
+						arms[name] = a
+					}
+				}
+				// the miss path: the else branch, or whatever follows in the loop body
+				if def == nil {
+					d := arm{cc: &ast.CaseClause{Case: x.Pos()}, cont: true}
+					if x.Else != nil {
+						e := armOf(x.Else)
+						d.returns, d.errRet = e.returns, e.errRet
+					}
+					for _, rest := range list[i+1:] {
+						e := armOf(rest)
+						if e.returns {
+							d.returns = true
+							d.errRet = d.errRet || e.errRet
+						}
+					}
+					def = &d
+				}
+			}
+		}
+	}
+	walkStmts(fd.Body.List)
 	for _, s := range spec {
 		name := opName[s.Opcode]
 		construct := "token for opcode " + name
@@ -382,4 +485,51 @@ func checkActiveReader(p *Program, r *Result) {
 	if bad == 0 {
 		r.held("C11.r", "mcap.Lexer", "use of Lexer.basereader", "", "the base reader is only re-installed as the active reader")
 	}
+}
+
+// packageMapLiteral: the composite literal a package-level map variable is initialised with (nil if it is assigned
+// anywhere else in the package, so that the literal is the whole table).
+func packageMapLiteral(g *goLayouts, id *ast.Ident) *ast.CompositeLit {
+	obj, ok := g.info.ObjectOf(id).(*types.Var)
+	if !ok || obj.Parent() != obj.Pkg().Scope() {
+		return nil
+	}
+	var lit *ast.CompositeLit
+	mutated := false
+	for _, f := range g.p.Pkgs[g.pkg].Syntax {
+		ast.Inspect(f, func(n ast.Node) bool {
+			switch x := n.(type) {
+			case *ast.ValueSpec:
+				for i, nm := range x.Names {
+					if g.info.ObjectOf(nm) == obj && i < len(x.Values) {
+						lit, _ = x.Values[i].(*ast.CompositeLit)
+					}
+				}
+			case *ast.AssignStmt:
+				for _, l := range x.Lhs {
+					switch y := l.(type) {
+					case *ast.Ident:
+						if g.info.ObjectOf(y) == obj {
+							mutated = true
+						}
+					case *ast.IndexExpr:
+						if yi, ok := y.X.(*ast.Ident); ok && g.info.ObjectOf(yi) == obj {
+							mutated = true
+						}
+					}
+				}
+			case *ast.CallExpr:
+				if g.isBuiltin(x, "delete") && len(x.Args) > 0 {
+					if yi, ok := x.Args[0].(*ast.Ident); ok && g.info.ObjectOf(yi) == obj {
+						mutated = true
+					}
+				}
+			}
+			return true
+		})
+	}
+	if mutated {
+		return nil
+	}
+	return lit
 }
